@@ -44,6 +44,7 @@ TYPES = {  # parameter types (cycled), variadic element type, result declaration
     "ints": (["int", "int", "int"], "int", ["int", "int", "int"]),
     "mixed": (["int", "string", "float64"], "string", ["string", "int", "error"]),
     "rich": (["*V", "[]int", "interface{}"], "interface{}", ["err error", "out *V", "m map[string]int"]),
+    "refs": (["S", "map[string]int", "*V"], "int", ["int", "int", "int"]),      # named slice, map, pointer
 }
 MNAMES = {  # abstract methods (A, B) -> method names of the concrete interface
     "AB": ("A", "B"),
@@ -130,7 +131,7 @@ def build_world(ctx, chosen):
         for c in chosen[sk]:
             n += 1
             ids["C%03d" % n] = c
-    src = "package src\n\ntype V struct{ N int }\n\n" + "".join(iface_src(cid, c) for cid, c in ids.items())
+    src = "package src\n\ntype V struct{ N int }\n\ntype S []int\n\n" + "".join(iface_src(cid, c) for cid, c in ids.items())
     # with-resets is read from the FILE-level template data (= the package-level config, mock_matryer.templ:151,160),
     # so the source package exists twice: src (with-resets false) and srcr (with-resets true); one mockery run.
     w = ctx.new_world({"src/src.go": src, "srcr/src.go": src.replace("package src", "package srcr", 1)}, module=MOD, gomod="module %s\n\ngo 1.23\n" % MOD, name="c04world")
@@ -149,7 +150,7 @@ def build_world(ctx, chosen):
         if code == 0:
             return w, live, skipped, w / "drvbin"
         bad = {}
-        for m in re.finditer(r"^(out/o\d/mocks\.go|in/i\d/mocks_gen\.go|in/i\d/shim\.go):(\d+):\d+: (.*)$", err, re.M):
+        for m in re.finditer(r"^(out/[oxy]\d/mocks\.go|in/i\d/mocks_gen\.go|in/i\d/shim\.go):(\d+):\d+: (.*)$", err, re.M):
             cid = class_at(w / m.group(1), int(m.group(2)))
             if cid:
                 bad.setdefault(cid, m.group(3))
@@ -164,7 +165,7 @@ def build_world(ctx, chosen):
 def class_at(path, line):
     lines = path.read_text().splitlines()
     for i in range(min(line, len(lines)) - 1, -1, -1):
-        m = re.search(r"\bMoq(C\d{3})\b", lines[i])
+        m = re.search(r"\bMoq(C\d{3})(?:_\d)?\b", lines[i])
         if m:
             return m.group(1)
     return None
@@ -172,6 +173,23 @@ def class_at(path, line):
 
 def in_package(c):
     return c.get("mnames", "AB") != "AB"
+
+
+# ONE interface mocked several times into ONE file through an interface-level `configs:` list whose entries differ in
+# template-data: per (with-resets value r) a file out/x<r> with the four skip-ensure x stub-impl combinations in this
+# order, and a file out/y<r> with the same entries in the opposite order.  Mock j = skip + 2*stub is struct Moq<cid>_<j>.
+MULTI_ORDER = [(0, False, False), (1, True, False), (2, False, True), (3, True, True)]
+
+
+def multi_classes(live):
+    """one class per shape (the first exported-method class of the shape) is mocked in the multi-mock files"""
+    seen, out = set(), []
+    for cid, c in live.items():
+        sk = shape_key(c["shape"])
+        if not in_package(c) and sk not in seen:
+            seen.add(sk)
+            out.append(cid)
+    return out
 
 
 def generate(ctx, w, live):
@@ -189,6 +207,13 @@ def generate(ctx, w, live):
                  "structname": "Moq" + cid,
                  "template-data": {"skip-ensure": skip, "stub-impl": stub, "with-resets": resets}}
                 for k, skip, stub, resets in OPT_PKGS if resets == want]}
+        r = 1 if want else 0
+        for cid in multi_classes(live):
+            for d, order in (("x%d" % r, MULTI_ORDER), ("y%d" % r, MULTI_ORDER[::-1])):
+                ifaces[cid]["configs"] += [
+                    {"dir": str(w / "out" / d), "filename": "mocks.go", "pkgname": d, "structname": "Moq%s_%d" % (cid, j),
+                     "template-data": {"skip-ensure": skip, "stub-impl": stub, "with-resets": want}}
+                    for j, skip, stub in order]
         pk[MOD + "/" + pkg] = {"config": {"template-data": {"with-resets": True}} if want else {}, "interfaces": ifaces}
     # in-package mocks (interfaces with unexported method names): one source package per option set, the mock file
     # and a generated shim (method expressions: the only way to reach unexported methods from the driver) next to it
@@ -199,7 +224,7 @@ def generate(ctx, w, live):
         for k, skip, stub, resets in OPT_PKGS:
             d = w / "in" / ("i%d" % k)
             d.mkdir(parents=True)
-            (d / "src.go").write_text("package i%d\n\ntype V struct{ N int }\n\n%s" % (k, isrc))
+            (d / "src.go").write_text("package i%d\n\ntype V struct{ N int }\n\ntype S []int\n\n%s" % (k, isrc))
             td = {"skip-ensure": skip, "stub-impl": stub}
             if resets:
                 td["with-resets"] = True
@@ -238,6 +263,7 @@ def generate(ctx, w, live):
 def write_registry(w, live):
     inp = any(in_package(c) for c in live.values())
     imp = "".join('\to%d "%s/out/o%d"\n' % (k, MOD, k) for k, *_ in OPT_PKGS)
+    imp += "".join('\t%s "%s/out/%s"\n' % (d, MOD, d) for d in ("x0", "x1", "y0", "y1"))
     if inp:
         imp += "".join('\ti%d "%s/in/i%d"\n' % (k, MOD, k) for k, *_ in OPT_PKGS)
     ent = []
@@ -250,6 +276,11 @@ def write_registry(w, live):
             else:
                 ent.append('\t"o%d/%s": {mk: func() interface{} { return &o%d.Moq%s{} }, names: [2]string{"%s", "%s"}},\n'
                            % (k, cid, k, cid, ma, mb))
+    for cid in multi_classes(live):
+        for d in ("x0", "x1", "y0", "y1"):
+            for j, _, _ in MULTI_ORDER:
+                ent.append('\t"%s.%d/%s": {mk: func() interface{} { return &%s.Moq%s_%d{} }, names: [2]string{"A", "B"}},\n'
+                           % (d, j, cid, d, cid, j))
     (w / "drv" / "registry.go").write_text("package main\n\nimport (\n" + imp + ")\n\nvar registry = map[string]entry{\n" + "".join(ent) + "}\n")
 
 
@@ -446,6 +477,13 @@ def run(ctx):
     for k, skip, stub, resets in OPT_PKGS:
         plan_pkgs.setdefault("%s/%s" % ("true" if stub else "false", "true" if resets else "false"), []).append("o%d" % k)
 
+    multi_pkgs = []
+    for d in ("x0", "x1", "y0", "y1"):
+        for j, skip, stub in MULTI_ORDER:
+            pp = "%s.%d" % (d, j)
+            multi_pkgs.append(pp)
+            plan_pkgs["%s/%s" % ("true" if stub else "false", "true" if d[1] == "1" else "false")].append(pp)
+
     # ------------------------------------------------------------ 2b. export histories, replay them on the mocks
     deep = [s for _, s in shapes]
     if only:
@@ -480,7 +518,9 @@ def run(ctx):
         fan = sum(len(v) for v in plan_classes.values()) / 28.0 * 1.2
         every = max(1, int(n * fan / (n_sample_target / len(chunks))))
         plan = {"classes": plan_classes, "pkgs": plan_pkgs, "trace_every": every, "trace_offset": ctx.seed % every,
-                "max_mismatch": 20000, "light_pkgs": ["o%d" % k for k, skip, _, _ in OPT_PKGS if skip], "light_max_ops": 2, "workers": ctx.workers(), "hang_seconds": 30}
+                "max_mismatch": 20000, "class_types": {cid: c["types"] for cid, c in live.items()},
+                "class_refpos": {cid: c["refpos"] for cid, c in live.items()}, "light_pkgs": ["o%d" % k for k, skip, _, _ in OPT_PKGS if skip] + multi_pkgs, "light_max_ops": 2,
+                "sparse_pkgs": multi_pkgs, "workers": ctx.workers(), "hang_seconds": 30}
         traces, summary, hang = run_driver(ctx, drv, plan, cases_path, d / ("out%d.ndjson" % ci), 3000)
         all_traces += traces
         tick(ctx, "replay_%d" % ci)
@@ -518,7 +558,18 @@ def run(ctx):
             if per_key.get("o%d/%s" % (k, cid), [0, 0])[0] + per_key.get("o%d/%s" % (k, cid), [0, 0])[1] == 0:
                 raise MachineryError("vacuous: no history was replayed on o%d/%s" % (k, cid))
 
+    for cid in multi_classes(live):
+        for pp in multi_pkgs:
+            if sum(per_key.get("%s/%s" % (pp, cid), [0, 0])) == 0:
+                raise MachineryError("vacuous: no history was replayed on the multi-mock file entry %s/%s" % (pp, cid))
+    ctx.cov["multi_mock_file_entries"] = len(multi_pkgs) * len(multi_classes(live))
+
     # ------------------------------------------------------------ 3. TLC judges the recorded op logs (contract)
+    for t in all_traces:
+        for e in t["events"]:
+            if str(e.get("reply", {}).get("kind", "")).startswith("broken:reference-position"):
+                raise MachineryError("abstraction table RefPositions (MatryerMockContract.tla) disagrees with the generated "
+                                     "parameter types for %s: %s" % (t["key"], e["reply"]["kind"]))
     matching = [t for t in all_traces if t["mismatch"] is None]
     mism = [t for t in all_traces if t["mismatch"] is not None]
     if not matching and not mism:
@@ -610,11 +661,16 @@ def report(ctx, rj, live, kind):
     t = rj["trace"]
     seen = ctx.__dict__.setdefault("_c04_seen", {})
     cid = t["key"].split("/")[1]
-    k = int(t["key"][1])
+    pkgpart = t["key"].split("/")[0]
+    if pkgpart[0] == "o":
+        k = int(pkgpart[1])
+    else:                                   # multi-mock file entry "x<r>.<j>" / "y<r>.<j>", j = skip + 2*stub
+        k = int(pkgpart.split(".")[1]) | (4 if pkgpart[1] == "1" else 0)
     c = live.get(cid, {})
     at = rj["at"]
     sig = {"kind": kind, "clause": rj.get("clause"), "op": at.get("op"), "names": c.get("names"), "types": c.get("types"),
            "method_names": c.get("mnames"),
+           "layout": "single" if pkgpart[0] == "o" and not in_package(c) else ("in-package" if pkgpart[0] == "o" else "multi-mock-file-" + pkgpart[0]),
            "variadic": c.get("shape", {}).get("var"), "stub": bool(k & 2), "resets": bool(k & 4),
            "reply": at.get("reply", {}).get("kind")}
     sk = json.dumps(sig, sort_keys=True)
